@@ -1,6 +1,7 @@
 package main
 
 import (
+	"go/types"
 	"flag"
 	"fmt"
 	"os"
@@ -21,6 +22,7 @@ func main() {
 	all := flag.Bool("all", false, "check every claimed property")
 	writeBase := flag.Bool("write-baseline", false, "with -all: write baseline_obligations.json when every claimed property is green")
 	vacuity := flag.Bool("vacuity", false, "diagnostic: with -property, list discharged obligations all of whose path instances have unsatisfiable premises")
+	headers := flag.Bool("print-headers", false, "print, for every contract, its header with the receiver and parameter names of the code (tools/add_param_names.py)")
 	sweepAll := flag.Bool("sweep-safety", false, "run the zero-annotation safety sweep over every function (diagnostic)")
 	flag.Parse()
 	if t := os.Getenv("VERIF_TIER"); t != "" && !isFlagSet("tier") {
@@ -29,6 +31,45 @@ func main() {
 	vacuityProbe = *vacuity
 	cfg := &RunCfg{Repo: *repo, Mirror: *mirror, Tier: *tier, Out: *out, DumpSynth: *dump, Verbose: *verbose, EvidenceDir: *evdir}
 	switch {
+	case *headers:
+		prog := loadOrDie(cfg)
+		for k, con := range prog.CS.Funcs {
+			fi := prog.Funcs[k]
+			var obj *types.Func
+			if fi != nil {
+				obj = fi.Obj
+			} else {
+				obj = prog.lookupInterfaceMethod(con)
+			}
+			if obj == nil {
+				continue
+			}
+			sig := obj.Type().(*types.Signature)
+			var ps []string
+			for i := 0; i < sig.Params().Len(); i++ {
+				n := sig.Params().At(i).Name()
+				if (n == "" || n == "_") && i < len(con.ParamNames) {
+					n = con.ParamNames[i]
+				}
+				if n == "" {
+					n = "_"
+				}
+				ps = append(ps, n)
+			}
+			recv := ""
+			if r := sig.Recv(); r != nil {
+				recv = r.Name()
+				if recv == "" || recv == "_" {
+					recv = "self"
+				}
+				if _, isIface := r.Type().Underlying().(*types.Interface); isIface {
+					recv = "this"
+				}
+				recv += "; "
+			}
+			fmt.Printf("%s\t%s\t%s(%s%s)\n", con.File, con.FuncName, con.FuncName, recv, strings.Join(ps, ", "))
+		}
+		os.Exit(0)
 	case *replay != "":
 		os.Exit(runReplay(cfg, *replay))
 	case *sweepAll:
